@@ -409,11 +409,195 @@ def p_C17(ctx):
 
 
 
+# --------------------------------------------------------------------------------------
+# iterator family (SeqIter.tla / IterMC.tla)
+# --------------------------------------------------------------------------------------
+ITER_KIND_PROP = {"rows": "C08", "rows_mut": "C08", "col": "C09", "col_mut": "C09",
+                  "cells": "C10", "cells_mut": "C10", "into_ref": "C10", "into_mut": "C10"}
+ITER_INVS = ["RangeInv", "YieldInv", "DoneInv"]
+
+
+def attr_iter(case, fail):
+    kind = fail["kind"]
+    t = case["kind"]["t"]
+    calls = case["calls"]
+    step = fail.get("step", -1)
+    op = calls[step]["op"] if 0 <= step < len(calls) else "end"
+    if kind.startswith("ledger"):
+        props = {"C05"}
+    else:
+        props = {ITER_KIND_PROP[t]}
+        if kind == "frame" or (kind == "write_through" and len(case["stack"]) > 0):
+            props.add("C04")
+    d = fail.get("detail", {}) if isinstance(fail.get("detail"), dict) else {}
+    sig = {"family": "iter", "iter": t, "op": op, "kind": kind,
+           "expected": (d.get("expected") or {}).get("k") if isinstance(d.get("expected"), dict) else None,
+           "observed": (d.get("observed") or {}).get("k") if isinstance(d.get("observed"), dict) else None}
+    return props, sig
+
+
+def iter_key(case):
+    return [case["root"]["kind"], case["root"]["nc"], case["root"]["nr"], case["stack"], case["kind"],
+            [(c["op"], c["a"]) for c in case["calls"]]]
+
+
+def iter_tlc(ctx, name, kinds, shapes, rkinds=("owned", "slice_m"), depth=1, bigs=(BIG_MAX, BIG_WRAP), seqmode=False, maxcalls=3,
+             walk=None, workers=8):
+    consts = {"Shapes": set(shapes), "RootKinds": set(rkinds), "Depth": depth, "Kinds": set(kinds), "BigArgs": set(bigs),
+              "SeqMode": seqmode, "MaxCalls": maxcalls, "Walk": walk is not None}
+    if walk is None:
+        cfg = cfg_text(constants=consts, view="View", invariants=ITER_INVS)
+        return ctx.tlc_run(name, "IterMC", cfg, workers=workers, xmx="8g")
+    cfg = cfg_text(constants=consts, invariants=ITER_INVS + ["WalkEmit"])
+    return ctx.tlc_run(name, "IterMC", cfg, workers=1, simulate="num=%d" % walk, seed=ctx.seed, depth=maxcalls + 4)
+
+
+def iter_pipeline(ctx, kinds, what):
+    ctx.rule = ("%s: (a) every call {next, next_back, nth(n), nth_back(n), len/size_hint, count, last, fold, rfold, [i], num_cols} with "
+                "n in 0..len+1 plus huge/wrap-adversarial values from every reachable (front, back) position of the iterator over every "
+                "receiver (owned / slice-built / every window; stride > width, width 1, height 1, empty); (b) every call SEQUENCE up to a "
+                "depth bound from a fresh iterator; (c) random walks; after each sequence the remaining items are drained and compared and "
+                "for Mut variants every yielded reference is written through and the whole root compared. distinct by (receiver, kind, call sequence)") % what
+    ctx.assumptions = ACC_ASSUME
+    q = ctx.quick
+    shapes = [0, 11, 13, 31, 23, 32, 33] if q else ALL_SHAPES4
+    r = iter_tlc(ctx, "edges", kinds, shapes, rkinds=("owned", "slice_v", "slice_m"), depth=1,
+                 bigs=(BIG_MAX, BIG_WRAP) if q else (BIG_MAX, BIG_HALF1, BIG_P32, BIG_WRAP), workers=8 if q else 12)
+    ctx.count_nontrivial(r.cases_path, iter_key)
+    ctx.sample_from(r.cases_path)
+    combos = [("dev", "u32"), ("release", "u32"), ("dev", "elem")] + ([] if q else [("release", "elem"), ("dev", "zst")])
+    for prof, elem in combos:
+        ctx.replay(r.cases_path, attr_iter, profile=prof, elem=elem, label="edges")
+    sq = iter_tlc(ctx, "sequences", kinds, [23, 32] if q else [13, 31, 23, 32, 33], rkinds=("owned",), depth=1 if q else 1,
+                  bigs=(BIG_MAX,), seqmode=True, maxcalls=2 if q else 3, workers=8 if q else 12)
+    ctx.count_nontrivial(sq.cases_path, iter_key)
+    ctx.sample_from(sq.cases_path, 2)
+    for prof, elem in [("dev", "u32"), ("release", "u32")]:
+        ctx.replay(sq.cases_path, attr_iter, profile=prof, elem=elem, label="sequences")
+    w = iter_tlc(ctx, "walks", kinds, [23, 32, 33, 34, 43], rkinds=("owned", "slice_m"), depth=1, bigs=(BIG_MAX,), maxcalls=6,
+                 walk=300 if q else 5000)
+    ctx.count_nontrivial(w.cases_path, iter_key)
+    for prof, elem in [("dev", "u32"), ("release", "elem")]:
+        ctx.replay(w.cases_path, attr_iter, profile=prof, elem=elem, label="walks")
+
+
+def p_C08(ctx):
+    iter_pipeline(ctx, ["rows", "rows_mut"], "rows() and rows_mut()")
+
+
+def p_C09(ctx):
+    iter_pipeline(ctx, ["col", "col_mut"], "col(c) and col_mut(c) for every column c")
+
+
+def p_C10(ctx):
+    iter_pipeline(ctx, ["cells", "cells_mut", "into_ref", "into_mut"], "cells(), cells_mut() and the IntoIterator forms on references")
+
+
+
+# --------------------------------------------------------------------------------------
+# serde family (Serde.tla / SerdeMC.tla)
+# --------------------------------------------------------------------------------------
+SERDE_INVS = ["AcceptOnlyConsistent", "VisitorInv", "RoundTripInv"]
+SERDE_ASSUME = ["serde and serde_json (textual encoding, number parsing, key delivery)", "TLC and the CommunityModules Json module",
+                "the harness renderer from abstract documents to JSON text / value trees"]
+
+
+def attr_serde(case, fail):
+    kind = fail["kind"]
+    props = {"C18"} if kind.startswith("rt.") else {"C19"}
+    d = fail.get("detail", {})
+    sig = {"family": "serde", "kind": kind, "stratum": case.get("stratum"), "transport": d.get("transport") or d.get("path")}
+    return props, sig
+
+
+def serde_tlc(ctx, name, strata, maxlen):
+    cfg = cfg_text(constants={"Strata": set(strata), "MaxLen": maxlen}, invariants=SERDE_INVS)
+    return ctx.tlc_run(name, "SerdeMC", cfg, workers=8)
+
+
+def p_C18(ctx):
+    ctx.rule = ("every grid shape (0,0), 1xN, Nx1 .. 3x3 serialised from an owned array (element types u32, i64, String with quotes / "
+                "backslashes / control characters / non-BMP characters, Option<u8>, Vec<u8>) through to_string / to_vec / to_writer / "
+                "to_value and read back through from_str / from_slice / from_reader / from_value (every pair), and every window of every "
+                "size at 9 offsets of a parent serialised from TooDeeView and TooDeeViewMut; TLC checks RoundTrip on the document model; "
+                "distinct by (shape, owned/view)")
+    ctx.assumptions = SERDE_ASSUME
+    r = serde_tlc(ctx, "roundtrip", ["roundtrip"], 0)
+    ctx.count_nontrivial(r.cases_path, lambda c: [c["stratum"], c["doc"]])
+    ctx.sample_from(r.cases_path)
+    ctx.replay(r.cases_path, attr_serde, profile="dev", label="roundtrip")
+    ctx.replay(r.cases_path, attr_serde, profile="release", label="roundtrip")
+    ctx.notes.append("each case is expanded by the harness into 5 element types x 3 serialisers x 3 text deserialisers + 2 value-tree paths "
+                     "(owned) or 9 window offsets x 6 paths (views)")
+
+
+def p_C19(ctx):
+    ctx.rule = ("documents generated from the grammar of Serde.tla: (structure) every sequence of up to 4 (quick) / 5 (thorough) fields "
+                "over {num_cols, num_rows, data, unknown} - every subset, order, duplication, duplicates with equal and different values; "
+                "(values) every field order x dimension tokens {0..3, 2^32, 2^63, 2^64-1, 2^64, -1, 1.5, string, null}^2 x data "
+                "{length product-1, product, product+1, ill-typed element first/last, non-array}; (tops) non-object documents; each "
+                "rendered plainly and with escaped keys and fed to from_str / from_slice / from_reader / from_value; distinct by document")
+    ctx.assumptions = SERDE_ASSUME
+    r = serde_tlc(ctx, "documents", ["structure", "values", "tops", "roundtrip"], 4 if ctx.quick else 5)
+    ctx.count_nontrivial(r.cases_path, lambda c: c["doc"])
+    ctx.sample_from(r.cases_path)
+    ctx.replay(r.cases_path, attr_serde, profile="dev", label="documents")
+    ctx.replay(r.cases_path, attr_serde, profile="release", label="documents")
+
+
+
+# --------------------------------------------------------------------------------------
+# constructor family (Ctor.tla / CtorMC.tla)
+# --------------------------------------------------------------------------------------
+def attr_ctor(case, fail):
+    kind = fail["kind"]
+    props = {"C05"} if kind.startswith("ledger") else {"C20"}
+    d = fail.get("detail", {})
+    sig = {"family": "ctor", "kind": kind, "ctor": case.get("c"), "t": case.get("t"),
+           "expected": (d.get("expected") or {}).get("k") if isinstance(d.get("expected"), dict) else None,
+           "observed": (d.get("observed") or {}).get("k") if isinstance(d.get("observed"), dict) else None}
+    return props, sig
+
+
+C20_HIST_OPS = CTOR_OPS | {"clone", "into_vec", "into_box", "into_iter", "from_view"}
+
+
+def p_C20(ctx):
+    ctx.rule = ("(a) every construction request: constructor in {new, init, from_vec, from_box, TooDeeView::new, TooDeeViewMut::new} x "
+                "dimensions over {0..N, usize::MAX, MAX/2, 2^63, 2^32}^2 x buffer lengths {0, product-1, product, product+1, product+2}, with "
+                "huge dimensions instantiated by several concrete values including pairs whose wrapped product equals the buffer length; "
+                "(b) ==, !=, Hash and clone over all pairs of arrays with up to E cells over two values (equal data / different dimensions "
+                "included); (c) history-machine transitions for clone, into Vec / Box / by-value iterator (consumed from both ends), "
+                "From<view>; distinct by request / pair / history")
+    ctx.assumptions = HIST_ASSUME
+    q = ctx.quick
+    cfg = cfg_text(constants={"MaxDim": 3 if q else 4, "BigDims": {BIG_MAX, BIG_HALF, BIG_HALF1, BIG_P32}, "EqCells": 3 if q else 4, "W": 4},
+                   invariants=["AcceptedShapeOK", "GuardInv", "EqInv"])
+    r = ctx.tlc_run("ctor", "CtorMC", cfg, workers=8)
+    ctx.count_nontrivial(r.cases_path, lambda c: c)
+    ctx.sample_from(r.cases_path)
+    for prof, elem in [("dev", "u32"), ("release", "u32"), ("dev", "elem"), ("release", "elem"), ("dev", "zst")]:
+        ctx.replay(r.cases_path, attr_ctor, profile=prof, elem=elem, label="ctor")
+    m = 3 if q else 4
+    h = hist_tlc_edges(ctx, "conversions", m, m, ops=C20_HIST_OPS | DRAIN_OPS, workers=4)
+    sel = os.path.join(ctx.outdir, "conv.cases.ndjson")
+    core.filter_cases(h.cases_path, sel, lambda c: c["steps"][-1]["op"] in C20_HIST_OPS or
+                      (c["steps"][-1]["op"] in DRAIN_OPS and hist_drain_kind(c, len(c["steps"]) - 1) == "into_iter"))
+    ctx.count_nontrivial(sel, hist_key)
+    ctx.sample_from(sel, 2)
+    for prof, elem, cap in [("dev", "elem", 0), ("release", "u32", 1), ("dev", "zst", 2), ("release", "elem", 2)]:
+        ctx.replay(sel, attr_hist, profile=prof, elem=elem, cap=cap, label="conversions")
+
+
+
 PIPELINES = {
     "C01": p_C01,
     "C05": p_C05,
     "C06": p_C06,
     "C07": p_C07,
+    "C08": p_C08, "C09": p_C09, "C10": p_C10,
+    "C18": p_C18, "C19": p_C19,
+    "C20": p_C20,
     "C02": p_C02, "C03": p_C03, "C04": p_C04, "C13": p_C13, "C14": p_C14, "C15": p_C15, "C16": p_C16, "C17": p_C17,
 }
 
